@@ -259,6 +259,7 @@ func run(c Case) (fs []failure, inconc string, facts map[string]bool, hist any) 
 	}
 	var all []ex
 	redirects, tryagains := 0, 0
+	redirected := map[string]bool{}
 	var reqLog []string
 	for _, nd := range cs.Nodes {
 		lg, rq := nd.SnapshotLog()
@@ -270,6 +271,14 @@ func run(c Case) (fs []failure, inconc string, facts map[string]bool, hist any) 
 		for _, r := range rq {
 			if strings.HasPrefix(r.Reply, "-MOVED") || strings.HasPrefix(r.Reply, "-ASK") {
 				redirects++
+				// which writes were answered with a redirection (and therefore executed again by the tool's redirection handling)
+				if r.Cmd == "set" && len(r.Args) >= 2 {
+					redirected[string(r.Args[0])+"\x00"+string(r.Args[1])] = true
+				} else if r.Cmd == "mset" {
+					for i := 0; i+1 < len(r.Args); i += 2 {
+						redirected[string(r.Args[i])+"\x00"+string(r.Args[i+1])] = true
+					}
+				}
 			}
 			if strings.HasPrefix(r.Reply, "-TRYAGAIN") {
 				tryagains++
@@ -315,6 +324,11 @@ func run(c Case) (fs []failure, inconc string, facts map[string]bool, hist any) 
 					// have already reached that node directly (pipelined: later batches dispatched after the slot map was refreshed; blocking: a
 					// later command of the same batch that was routed with the refreshed map)
 					sig = "per-key-order-skips:redirect-reexecution"
+					if redirected[k+"\x00"+v] && redirected[k+"\x00"+src[prev+1]] {
+						// NOT the known finding: the write that overtook was itself answered with a redirection, i.e. both writes went through the
+						// tool's redirection handling, which re-executes the redirected commands of a node's replies one by one in reply order
+						sig = "per-key-order-skips:redirected-commands-reordered"
+					}
 				} else if tryagains > 0 && !c.Txn {
 					// known finding: a multi-key command answered TRYAGAIN (one of its keys already migrated) while a later single-key
 					// command of the same pipelined batch on the key that has not moved yet is executed by the same node
